@@ -125,11 +125,13 @@ Outcome exchange(World &w, Src &s, Ctx &c, QuerySpec &qs, long full_size, const 
   if (!w.tcp) {
     CHECK(w.udp_send(qb.data(), qb.size()), "harness/setup", "sendto: %s", strerror(errno));
     w.turn();
+    w.settle([&] { return c.calls >= 1; });
     o.got = w.udp_recv(&resp);
   } else {
     std::vector<uint8_t> st; st.push_back((uint8_t)(qb.size() >> 8)); st.push_back((uint8_t)qb.size()); st.insert(st.end(), qb.begin(), qb.end());
     CHECK(w.tcp_send(st.data(), st.size()), "harness/setup", "tcp send failed");
     w.tcp_pump();
+    if (c.calls == 0) { w.settle([&] { return c.calls >= 1; }); w.tcp_pump(); }
     o.got = w.tcp_pop(&resp);
   }
   CHECK(c.calls == 1, "C35/callback-count", "the request callback ran %d time(s) for one well-formed query", c.calls);
